@@ -128,6 +128,8 @@ class Checked:
                 clauses = _named(self._invoke(cd["ensures"], post_args))
             except ClauseFailure:
                 raise
+            except dsl.NotExecutable:
+                clauses = []
             except Exception as e:
                 raise ClauseFailure(self.key, "post", "<evaluation>", f"clause raised {type(e).__name__}: {e}") from e
             for name, ok in clauses:
